@@ -9,11 +9,51 @@
    and released from deferral, in arbitrary order                                         KF_C12_created_order
    Proved, for every oracle: a resumed session is written in an order SORTED by that key (so messages with
    increasing stamps keep their order), the released held-back message has the smallest key; a message that is not
-   held back is written in the step in which it is published.  Partial: there is no theorem over whole histories
-   (it would need the accounting of C11 to exclude a later message passing a held-back one). *)
+   held back is written in the step in which it is published.  The whole-history theorem C12_modulo_findings below needs nothing but that. *)
 From MV Require Import Base.Val Session.Pkt Session.Inflight Session.InflightProofs Session.QosSpecs
-  Session.QosProofs Session.QosWitness.
+  Session.QosProofs Session.QosOrder Session.QosLive Session.QosSound Session.QosWitness.
 Open Scope N_scope.
+
+(* WHOLE HISTORIES.  ha = everything up to the last publication of message u1 (stamped n1, delivered with QoS q1),
+   hb = everything from the first publication of message u2 (n2, q2) on; the two are any messages for this subscriber -
+   same publisher and topic is not even needed - with q1 = 0 or q2 > 0 (true for equal QoS).  If the stamps increase
+   strictly after truncation to 16 bits (the ONLY finding needed: KF_C12_created_order is exactly "they do not"), then in
+   the whole output, for every oracle and whatever else happens (deferral and release, resends after reconnections,
+   collisions, wrong quota arithmetic ...): at no transmission of u2 that u1's first transmission has not preceded is u1
+   transmitted later, i.e. first transmissions are in publish order if both messages are delivered (C12_first_occurrence). *)
+Theorem C12_modulo_findings : forall c u1 u2 n1 n2 q1 q2,
+  cfg_ok c -> u1 <> u2 ->
+  (n1 mod 65536 < n2 mod 65536)%Z ->
+  q1 = 0 \/ 0 < q2 ->
+  forall ha hb,
+  hist_all op_ok (ha ++ hb) ->
+  hist_all (tagged u1 n1 q1) ha -> hist_all (not_pub u2) ha ->
+  hist_all (not_pub u1) hb -> hist_all (tagged u2 n2 q2) hb ->
+  ord_ok u1 u2 (txs (concat (snd (run c init_st (ha ++ hb))))).
+Proof. exact first_transmissions_in_order. Qed.
+
+Theorem C12_first_occurrence : forall u1 u2 l pre post,
+  u1 <> u2 -> ord_ok u1 u2 l -> l = pre ++ u2 :: post -> ~ In u2 pre -> In u1 l -> In u1 pre.
+Proof. exact ord_ok_first. Qed.
+
+(* the two facts behind it, for every history and every oracle, unconditionally: while the client is connected every
+   stored outbound PUBLISH that has never been transmitted carries the held-back mark, and while such a message exists
+   the send quota is 0 (T = the uids transmitted so far) *)
+Theorem C12_ghost_invariants : forall c, cfg_ok c -> forall h s T,
+  hist_ok h -> ghost c s T -> ghost c (fst (run c s h)) (T ++ txs (concat (snd (run c s h)))).
+Proof. exact run_ghost. Qed.
+
+(* the monitor is sound for the specification in the property's words: if it accepts every step of an observed history
+   (every message has its own uid and is received only after it was published), first transmissions are in publish order
+   for any two messages of one publisher/topic delivered at the same QoS *)
+Theorem C12_monitor_sound : forall c tr,
+  uids_distinct tr -> causal [] tr -> accept12 c view0 tr -> Spec12 tr.
+Proof. exact chk12_sound. Qed.
+
+Theorem C12_engine_sound : forall c tr,
+  uids_distinct tr -> causal [] tr -> never_err c view0 tr ->
+  rs_viol (replay 12 c init_st view0 taint0 tr 0 true) = None -> Spec12 tr.
+Proof. exact engine12_sound. Qed.
 
 Theorem C12_resend_order_modulo_findings : forall c s v5 clean sei rm orc,
   wf c s -> persistent s -> keeps_session (Reconnect v5 clean sei rm) = true -> s_infl s <> [] ->
@@ -45,6 +85,28 @@ Proof. exists (wcfg 2 8), (c12_h [3; 2; 1]). vm_compute. reflexivity. Qed.
 Example C12_nonvacuous : model_verdict 12 (wcfg 2 8) (c12_h [1; 2; 3]) = None.
 Proof. vm_compute. reflexivity. Qed.
 
+(* non-vacuity of the whole-history theorem: two QoS 1 messages stamped in different seconds are queued while the
+   client is away; the oracle proposes the reverse order for the resend; the hypotheses hold and the output is in order *)
+Definition c12_ha : list (op * list N) := [w_connect; w_netclose; (OutPublish 1 2 1 0 100 0 true false, [])].
+Definition c12_hb : list (op * list N) := [(OutPublish 1 2 2 0 101 0 true false, []); (Reconnect true false 300 1, [2; 1])].
+Example C12_modulo_findings_nonvacuous :
+  hist_all op_ok (c12_ha ++ c12_hb) /\
+  hist_all (tagged 1 100 1) c12_ha /\ hist_all (not_pub 2) c12_ha /\
+  hist_all (not_pub 1) c12_hb /\ hist_all (tagged 2 101 1) c12_hb /\
+  txs (concat (snd (run (wcfg 2 8) init_st (c12_ha ++ c12_hb)))) = [1; 2].
+Proof.
+  repeat split; try (vm_compute; reflexivity);
+    intros o orc I; cbn in I;
+    repeat (destruct I as [I|I]; [inversion I; subst; cbn; try exact Logic.I; try (vm_compute; congruence);
+                                  try (intros E; split; [reflexivity|vm_compute; reflexivity])|]);
+    try destruct I.
+Qed.
+
+Print Assumptions C12_modulo_findings.
+Print Assumptions C12_first_occurrence.
+Print Assumptions C12_ghost_invariants.
+Print Assumptions C12_monitor_sound.
+Print Assumptions C12_engine_sound.
 Print Assumptions C12_resend_order_modulo_findings.
 Print Assumptions C12_release_order_partial.
 Print Assumptions C12_direct_partial.
